@@ -743,10 +743,12 @@ Qed.
 Lemma filter_map_ints : forall (f : gentry -> bool) l, filter f (map GInt l) = map GInt (filter (fun z => f (GInt z)) l).
 Proof. induction l as [|x r IH]; simpl; [reflexivity|]. destruct (f (GInt x)); simpl; [f_equal|]; exact IH. Qed.
 
+Lemma listify_id : forall g : list (list gentry), map py_listify g = g.
+Proof. intros g. unfold py_listify. induction g as [|x r IH]; simpl; [reflexivity|]. rewrite map_id, IH. reflexivity. Qed.
 Lemma check_groups_golden_ints : forall gz d,
   check_groups_golden (map (map GInt) gz) d = option_map (map (map GInt)) (check_groups gz d).
 Proof.
-  intros gz d. unfold check_groups_golden, check_groups. cbv zeta. rewrite concat_ints.
+  intros gz d. unfold check_groups_golden, check_groups. cbv zeta. rewrite listify_id, concat_ints.
   set (all := List.concat gz). fold bad_entry. rewrite bad_entry_ints. rewrite map_length.
   assert (Hr : (Nat.ltb 0 (List.length all) && (Z.ltb (py_min (map GInt all)) 0 || Z.geb (py_max (map GInt all)) (Z.of_nat d)))
                = match all with [] => false | x :: r => (zmin x r <? 0)%Z || (Z.of_nat d <=? zmax x r)%Z end).
